@@ -157,6 +157,17 @@ def main(tier=None, replay=None):
             for pid, tid, l, clause in r.fails:
                 ck.violation('%s:%s' % (clause, gen.digest(inputs[0])), '%s fails at position %d' % (clause, l), case)
             return ck.finish('replay')
+    # (M) the concrete Kahn algorithm refines the abstract order specification on ALL small graphs; the variant that
+    # counts unconnected pins (the code before fix 6e566da) must be refuted - sensitivity guard of the model
+    for cfg in ck.pick(['MC_TraverseM'], ['MC_TraverseM', 'MC_TraverseM_b']):
+        m = ck.tlc('TraverseM', cfg, label='M:' + cfg, cont=False, timeout=3000)
+        ck.require_clean(m, allow_violation=False)
+        if m.rc != 0:
+            raise MachineryError('TraverseM: the concrete traversal model does not refine the abstract specification: %s' % m.invariant_violations)
+    m = ck.tlc('TraverseM', 'MC_TraverseM_old', label='M:MC_TraverseM_old', cont=False)
+    if 'Refines' not in m.invariant_violations:
+        raise MachineryError('TraverseM: counting unconnected pins was not refuted - the model is insensitive')
+    ck.count('model-refutes-open-pin-counting')
     for t in range(ck.pick(300, 3000)):
         c = gen.gen_circuit(rnd, max_gates=ck.pick(10, 20), max_ff=3)
         if rnd.random() < 0.5:
